@@ -58,3 +58,34 @@ Example C14_agreeing_example :
   forallb (C14_ok_at [(a_lua, src_ok)] a_lua) (filter (fun o => negb (is_decl (s_role o))) (bind_file (chunk_of src_ok))) = true /\
   length (filter (fun o => negb (is_decl (s_role o))) (bind_file (chunk_of src_ok))) = 23%nat.
 Proof. vm_compute. repeat split; reflexivity. Qed.
+
+(* ==================================================================== positive theorems (agent position-bind)
+   Proofs/PositionBind*.v; guards as in Properties/C05.v (Laid2 includes shape_ok = class B5 excluded program-wide,
+   no_repoint = class B4 excluded program-wide). *)
+From LH Require Import Proofs.PositionBindBase Proofs.PositionBindFinal Proofs.PositionBindWitness.
+
+(* "every visible local is offered", model level: at every cursor column of every non-declaring identifier
+   occurrence o of a laid-out fragment program outside B4/B5, every local declaration that is in the environment of
+   Lua's binder at o (s_env o: all of them are declared before the cursor) is among the local labels that
+   GetCompleteVar collects along FindMinScope's chain *)
+Theorem C14_complete_locals_partial : forall P,
+  in_fragment P = true -> Laid2 P -> no_repoint P = true ->
+  forall o, In o (bind_file P) -> is_decl (s_role o) = false ->
+  forall col, (sc (s_loc o) <= col <= ec (s_loc o))%Z ->
+  forall x, In x (s_env o) -> In (fst (fst x)) (complete_locals (analyse P) (sl (s_loc o)) col).
+Proof. exact complete_locals_core. Qed.
+Print Assumptions C14_complete_locals_partial.
+
+(* the full statement this is a part of: the same for whole requests over file bytes (text cut, prefix filter, globals)
+   = the first conjunct of complete_ok in C14_complete_full; the lift to run_complete is not proved *)
+Definition C14_complete_locals_full : Prop :=
+  forall files f line col o labels pre off,
+    all_in_fragment files = true -> spec_occ files f line col = Some o ->
+    offset_of (bytes_of files f) line col 0 = Some off -> complete_prefix (bytes_of files f) off = CutName pre ->
+    run_complete files f line col = Some labels ->
+    forallb (fun n => negb (starts_with pre n) || name_in n labels) (env_names (s_env o) []) = true.
+
+Example C14_core_guards_nonvacuous :
+  core_guards_b 1000%Z (chunk_of src_core) = true /\
+  length (filter (fun o => negb (is_decl (s_role o))) (bind_file (chunk_of src_core))) = 29%nat.
+Proof. vm_compute. repeat split. Qed.
